@@ -98,7 +98,7 @@ def parse_expr(text):
 
 
 _ASSIGN = re.compile(r'^([A-Za-z_]\w*)\s*=(?!=)\s*(.+)$')
-_FUNC = re.compile(r'^function\s+([A-Za-z_]\w*)\s*\(\s*([^)]*?)\s*(\.\.\.)?\s*\)\s*:$')
+_FUNC = re.compile(r'^(?:async\s+)?function\s+([A-Za-z_]\w*)\s*\(\s*([^)]*?)\s*(\.\.\.)?\s*\)\s*:$')
 _FOR = re.compile(r'^for\s+([A-Za-z_]\w*)(?:\s*,\s*([A-Za-z_]\w*))?\s+in\s+(.+):$')
 
 
